@@ -3,6 +3,11 @@
 //! view(delegate) ⊆ view(delegator) — a pure relation between two observed
 //! views — initially, after the delegator's grants are narrowed / revoked /
 //! extended, and for attempted amplification in the delegation record.
+//!
+//! `owner_delegation` asks the same of a delegator that holds the Space itself
+//! (co-owner / founding owner, authority by ownership rather than by a grant):
+//! suspended, revoked or taken out of the owners by the host, it holds nothing
+//! (or only its grants), and so do its delegates from the very next request on.
 
 use super::battery::*;
 use super::model::*;
@@ -153,10 +158,15 @@ fn rows_of(pages: &[&Exchange]) -> (bool, Vec<String>) {
 
 fn observe(w: &mut World, pop: &RPop, fx: &BTreeMap<usize, Facts>, who: u8, cmds: &[Cmd]) -> Result<View, String> {
     let session = w.session(who);
-    let readable = observe_readable(w, pop, fx, &session)?;
+    observe_with(w, pop, fx, &session, cmds)
+}
+
+/// The same through a given session object (one that was opened earlier).
+fn observe_with(w: &mut World, pop: &RPop, fx: &BTreeMap<usize, Facts>, session: &anda_cognitive_nexus::nexus::Session, cmds: &[Cmd]) -> Result<View, String> {
+    let readable = observe_readable(w, pop, fx, session)?;
     let seqs: Vec<u64> = (1..=4096).collect();
     let ex = {
-        let mut run = super::battery::Runner { world: w, pop, session: &session, visible_seqs: seqs };
+        let mut run = super::battery::Runner { world: w, pop, session, visible_seqs: seqs };
         run.run(cmds, false)
     };
     let mut rows = BTreeMap::new();
@@ -423,6 +433,270 @@ fn amplifies(d: &Deleg, lead: &[Grant]) -> bool {
     })
 }
 
+// ---------------------------------------------------------------------------
+// sub-check: owner_delegation — the delegator holds the Space itself
+// ---------------------------------------------------------------------------
+
+/// A host event of the `owner_delegation` sub-check.
+#[derive(Clone, Debug, Serialize, Deserialize)]
+pub enum OdEvent {
+    SuspendLead,
+    RevokeLead,
+    ReactivateLead,
+    /// the host takes the lead out of the Space's owners (it keeps its grants)
+    DropOwnership,
+    /// the host makes the lead an owner (again): 1 co-owner, 2 founding owner
+    TakeOwnership(u8),
+    RevokeLeadGrant(u16),
+    AddLeadGrant(Grant),
+}
+
+#[derive(Clone, Debug, Serialize, Deserialize)]
+pub struct OdCase {
+    pub pop: Population,
+    /// how the lead p0 holds the Space: 1 = co-owner (a member of `owners`), 2 = founding owner (`owner_principal`)
+    pub ownership: u8,
+    /// grants the lead holds besides (0-2)
+    pub lead: Vec<Grant>,
+    /// p0 -> p1, the record as generated
+    pub deleg: Deleg,
+    /// p1 -> p2 (re-delegation, parent = the first one), derived from the first by a tweak of [`derive`]
+    pub chain: Option<(u8, Deleg)>,
+    pub events: Vec<OdEvent>,
+    /// every view is asked through the session objects opened before the first event (else through fresh ones)
+    pub old_sessions: bool,
+    /// whose request is the very next one after each event (rotation of lead, delegate, re-delegate)
+    pub first: u8,
+    pub knobs: Knobs,
+}
+
+fn od_strategy() -> impl Strategy<Value = OdCase> {
+    let lead_grant = || {
+        grant_strategy(1, 0).prop_map(|mut g| {
+            g.revoked = false;
+            g.deleg_ok = g.deleg_ok || g.ceiling % 2 == 1;
+            g
+        })
+    };
+    // what takes the lead's authority away
+    let taking = || prop_oneof![4 => Just(OdEvent::SuspendLead), 3 => Just(OdEvent::RevokeLead), 2 => Just(OdEvent::DropOwnership)];
+    let other = prop_oneof![
+        3 => Just(OdEvent::ReactivateLead),
+        2 => (1u8..=2).prop_map(OdEvent::TakeOwnership),
+        1 => any::<u16>().prop_map(OdEvent::RevokeLeadGrant),
+        1 => lead_grant().prop_map(OdEvent::AddLeadGrant),
+    ];
+    let event = prop_oneof![1 => taking(), 1 => other];
+    (
+        population_strategy(4, 14),
+        1u8..=2,
+        prop::collection::vec(lead_grant(), 0..=2),
+        (deleg_strategy(1), 0u8..4),
+        prop::option::weighted(0.5, (0u8..12, deleg_strategy(1), 0u8..4)),
+        (prop::collection::vec(event.clone(), 0..=1), taking(), prop::collection::vec(event, 0..=2)),
+        prop::bool::weighted(0.7),
+        0u8..3,
+        knobs_strategy(),
+    )
+        .prop_map(|(pop, ownership, lead, (mut deleg, bias), chain, (before, taking, after), old_sessions, first, knobs)| {
+            deleg.from = 0;
+            deleg.to = 1;
+            deleg.revoked = false;
+            deleg.parent = None;
+            // most records confer `read` under a window that holds: the transition is observable
+            if bias > 0 {
+                if !ACTION_SETS[deleg.actions as usize % ACTION_SETS.len()].contains(&"read") {
+                    deleg.actions = 0;
+                }
+                deleg.window = if deleg.window == 3 { 3 } else { 0 };
+            }
+            let chain = chain.map(|(tweak, random, b)| {
+                if b > 0 {
+                    deleg.may_redelegate = true;
+                }
+                (tweak, random)
+            });
+            let mut events = before;
+            events.push(taking);
+            events.extend(after);
+            OdCase { pop, ownership, lead, deleg, chain, events, old_sessions, first, knobs }
+        })
+}
+
+fn od_event_name(e: &OdEvent) -> &'static str {
+    match e {
+        OdEvent::SuspendLead => "suspend_lead",
+        OdEvent::RevokeLead => "revoke_lead",
+        OdEvent::ReactivateLead => "reactivate_lead",
+        OdEvent::DropOwnership => "drop_ownership",
+        OdEvent::TakeOwnership(1) => "make_co_owner",
+        OdEvent::TakeOwnership(_) => "make_founding_owner",
+        OdEvent::RevokeLeadGrant(_) => "revoke_lead_grant",
+        OdEvent::AddLeadGrant(_) => "add_lead_grant",
+    }
+}
+
+fn labels_of(pop: &RPop, v: &View) -> String {
+    let mut l: Vec<String> = v.readable.keys().take(6).map(|i| pop.label(*i)).collect();
+    if v.readable.len() > 6 {
+        l.push(format!("... ({} elements)", v.readable.len()));
+    }
+    l.join(", ")
+}
+
+fn run_owner(c: &OdCase, ctx: &mut CaseCtx) -> Result<(), Fail> {
+    let pop = resolve(&c.pop);
+    let gov = Gov { principals: 3, groups: vec![], grants: vec![], delegations: vec![], policy: vec![], status: vec![] };
+    let mut w = h(build_population(&pop, &gov, None, &Variation::default()))?;
+    let fx = h(facts(&w, &pop))?;
+    // the lead's authority: the Space itself (host control plane), plus 0-2 grants
+    let how = |o: u8| if o == 1 { "co-owner" } else { "founding owner" };
+    let mut owner: u8 = if c.ownership == 1 { 1 } else { 2 };
+    h(set_ownership(&w, LEAD, owner))?;
+    ctx.label(format!("ownership:{}", how(owner).replace(' ', "_")));
+    let mut status: u8 = 0;
+    let mut lead_rows: Vec<Option<u64>> = vec![];
+    for g in &c.lead {
+        let mut g = g.clone();
+        g.to = Grantee::Principal(LEAD);
+        lead_rows.push(Some(h(create_grant(&mut w, &pop, &g))?));
+    }
+    ctx.label(format!("lead_grants:{}", c.lead.len()));
+    let d = &c.deleg;
+    let scope = scope_record(&mut w, &pop, &d.scope);
+    let d_row = h(create_delegation_raw(&w, LEAD, D1, actions_record(d.actions), scope, conditions_record(d.window), constraints_record(d.ceiling, d.mask), None, d.may_redelegate))?;
+    if let Some((tweak2, random2)) = &c.chain {
+        let mut d2 = derive(d.actions, &d.scope, d.ceiling, d.mask, d.window, *tweak2, random2);
+        d2.from = D1;
+        d2.to = D2;
+        let scope = scope_record(&mut w, &pop, &d2.scope);
+        h(create_delegation_raw(&w, D1, D2, actions_record(d2.actions), scope, conditions_record(d2.window), constraints_record(d2.ceiling, d2.mask), Some(d_row), d2.may_redelegate))?;
+        ctx.label(if d.may_redelegate { "chain:redelegation_allowed" } else { "chain:redelegation_not_allowed" });
+    } else {
+        ctx.label("chain:none");
+    }
+    let cmds = subset_battery(&c.knobs);
+    // sessions opened now, before every event
+    let opened = [w.session(LEAD), w.session(D1), w.session(D2)];
+    ctx.label(if c.old_sessions { "sessions:opened_before_the_events" } else { "sessions:fresh" });
+    let who: Vec<u8> = if c.chain.is_some() { vec![LEAD, D1, D2] } else { vec![LEAD, D1] };
+
+    let mut step = 0usize;
+    let mut events = c.events.iter();
+    loop {
+        let when = if step == 0 { "initially".to_string() } else { format!("after event #{step} ({})", od_event_name(&c.events[step - 1])) };
+        // the views, the very next request being the one of the generated principal
+        let mut views: BTreeMap<u8, View> = BTreeMap::new();
+        for k in 0..who.len() {
+            let q = who[(k + c.first as usize) % who.len()];
+            let v = if c.old_sessions { h(observe_with(&mut w, &pop, &fx, &opened[q as usize], &cmds))? } else { h(observe(&mut w, &pop, &fx, q, &cmds))? };
+            views.insert(q, v);
+        }
+        let (vl, v1) = (&views[&LEAD], &views[&D1]);
+        let holds = match (status, owner) {
+            (1, _) => "is suspended".to_string(),
+            (2, _) => "is revoked".to_string(),
+            (_, 0) => "no longer owns the Space".to_string(),
+            (_, o) => format!("is an active {}", how(o)),
+        };
+        // the stated clause itself: while the delegator is not active it holds nothing, so the
+        // delegations it made confer nothing (the delegates hold nothing else)
+        if status != 0 {
+            for (q, name) in [(D1, "its delegate p1"), (D2, "the re-delegate p2")] {
+                let Some(v) = views.get(&q) else { continue };
+                let answered: Vec<&str> = v.rows.iter().filter(|(_, (ok, rows))| *ok && !rows.is_empty()).map(|(ci, _)| cmds[*ci].text.as_str()).collect();
+                if !v.readable.is_empty() || !v.permissions.is_empty() || !answered.is_empty() {
+                    return fail(
+                        "c19:inactive-delegator-still-confers",
+                        format!(
+                            "(c, d) {when}: the delegator p0 (authority by ownership of the Space, {} grant(s)) {holds} and its own requests are refused, yet {name}, whose only authority is the delegation p0 made, still reads [{}] by id, DESCRIBE ACCESS lists {:?} for it, and {} of its listing / search / history commands still answer with rows{}",
+                            lead_rows.iter().filter(|r| r.is_some()).count(),
+                            labels_of(&pop, v),
+                            v.permissions,
+                            answered.len(),
+                            answered.first().map(|t| format!(" (e.g. `{t}`)")).unwrap_or_default()
+                        ),
+                    );
+                }
+            }
+            ctx.count("inactive_delegator_checks", 1);
+        }
+        // the relation: view(delegate) within view(delegator), along the whole chain
+        let single = lead_rows.iter().filter(|r| r.is_some()).count() + (owner != 0) as usize <= 1;
+        check_subset(&pop, &cmds, v1, vl, "the delegate p1", "p0", single, &when)?;
+        if let Some(v2) = views.get(&D2) {
+            check_subset(&pop, &cmds, v2, v1, "the re-delegate p2", "p1", false, &when)?;
+            check_subset(&pop, &cmds, v2, vl, "the re-delegate p2", "p0", false, &when)?;
+            if !v2.readable.is_empty() {
+                ctx.label("chain:confers_something");
+            }
+        }
+        ctx.count("subset_checks", 1);
+        let reads = !v1.readable.is_empty() || views.get(&D2).map(|v| !v.readable.is_empty()).unwrap_or(false);
+        let lead_state = match (status, owner) {
+            (0, 0) => "lead_not_owner",
+            (0, _) => "lead_active_owner",
+            (1, _) => "lead_suspended",
+            _ => "lead_revoked",
+        };
+        ctx.label(format!("{}:{lead_state}", if reads { "delegate_reads_something" } else { "delegate_reads_nothing" }));
+        if reads && v1.readable.len() < vl.readable.len() {
+            ctx.label("attenuated_view");
+        }
+        let Some(ev) = events.next() else { break };
+        step += 1;
+        let takes = match ev {
+            OdEvent::SuspendLead => {
+                h(set_status(&w, LEAD, 1))?;
+                status = 1;
+                true
+            }
+            OdEvent::RevokeLead => {
+                h(set_status(&w, LEAD, 2))?;
+                status = 2;
+                true
+            }
+            OdEvent::ReactivateLead => {
+                h(set_status(&w, LEAD, 0))?;
+                status = 0;
+                false
+            }
+            OdEvent::DropOwnership => {
+                h(set_ownership(&w, LEAD, 0))?;
+                let had = owner != 0;
+                owner = 0;
+                had
+            }
+            OdEvent::TakeOwnership(o) => {
+                owner = if *o == 1 { 1 } else { 2 };
+                h(set_ownership(&w, LEAD, owner))?;
+                false
+            }
+            OdEvent::RevokeLeadGrant(x) => {
+                let alive: Vec<usize> = (0..lead_rows.len()).filter(|i| lead_rows[*i].is_some()).collect();
+                if !alive.is_empty() {
+                    let k = alive[vf_core::pick_idx(*x, alive.len())];
+                    h(revoke_grant(&w, lead_rows[k].take().unwrap()))?;
+                }
+                false
+            }
+            OdEvent::AddLeadGrant(g) => {
+                let mut g = g.clone();
+                g.to = Grantee::Principal(LEAD);
+                lead_rows.push(Some(h(create_grant(&mut w, &pop, &g))?));
+                false
+            }
+        };
+        ctx.label(format!("event:{}", od_event_name(ev)));
+        // non-trivial: the event took away an authority under which a delegate was reading
+        if takes && reads {
+            ctx.nontrivial = true;
+            ctx.label(format!("taken_while_conferring:{}", od_event_name(ev)));
+        }
+    }
+    Ok(())
+}
+
 pub fn register(r: &mut Runner) {
     r.sub(
         "delegation_subset",
@@ -430,5 +704,12 @@ pub fn register(r: &mut Runner) {
         (480, 9_600),
         ds_strategy,
         super::wrap(run_subset),
+    );
+    r.sub(
+        "owner_delegation",
+        "one nexus, 8-18 elements of mixed classifications; the lead p0 holds its authority by OWNERSHIP of the Space (made a co-owner or the founding owner through the host's put_space) plus 0-2 grants; p1 holds only a delegation p0 made (generated record: actions, scope, ceiling or none, mask, window; mostly conferring `read`), optionally p2 holds only a re-delegation from p1 (derived from the first record by the tweaks of delegation_subset); sessions of all three are opened, then 1-4 host events follow, at least one of which takes the lead's authority away (suspend / revoke the lead, take it out of the Space's owners; also re-activate it, make it co-owner / founding owner again, revoke / add a grant of the lead); initially and after every event each principal's view is observed - through the session objects opened before the events (7 of 10 cases) or fresh ones, the very next request after the event being the one of a generated principal - and (c, d) while the lead is suspended or revoked every delegate along the chain reads nothing by id, lists no permission in DESCRIBE ACCESS and gets no row from any listing / SEARCH / HISTORY / CHANGES command; (d) always view(delegate) is a subset of view(delegator) as in delegation_subset (elements by id, permissions, row multisets of the monotone battery, a command refused for the delegator does not answer the delegate; field by field when the lead holds one authority); policy statements are not generated here (listed finding K9 is counted by delegation_subset); non-trivial = an event took the lead's activity or ownership away at a moment when a delegate was reading something",
+        (240, 6_000),
+        od_strategy,
+        super::wrap(run_owner),
     );
 }
